@@ -1,9 +1,9 @@
 CONSTANTS Vocab <- VocabC
           MaxAdds = 3
-          MaxCrashes = 2
-          AtomicSave = FALSE
+          MaxCrashes = 1
+          AtomicSave = TRUE
           InitDisks <- InitDisksC
-          TempExclusive = FALSE
+          TempExclusive = TRUE
           AppendOnly = FALSE
 INIT DFInit
 NEXT DFNext
